@@ -65,6 +65,19 @@ func VerifyFunction(p *Program, spec *Spec, fn *ssa.Function, con *Contract) (re
 	for _, g := range con.Ghosts {
 		x.args[g.Name] = Sc{s.declare("ghost:"+g.Name, g.Sort), g.Sort}
 	}
+	// representation invariants of concrete parameter types (typeinv)
+	for _, ti := range spec.TypeInvs {
+		tt := p.LookupType(ti.Type)
+		if tt == nil {
+			continue
+		}
+		for i, prm := range fn.Params {
+			if types.Identical(prm.Type(), tt) && s.abstractOf(prm.Type()) == nil {
+				e0 := &Env{s: s, vars: map[string]Val{"x": args[i]}, typs: map[string]types.Type{"x": tt}, bound: map[string]bool{}, cur: st, old: st, where: fn.String() + " typeinv"}
+				st.assume(e0.term(ti.Body))
+			}
+		}
+	}
 	for _, gv := range con.GhostVars {
 		e0 := &Env{s: s, vars: map[string]Val{}, typs: map[string]types.Type{}, bound: map[string]bool{}, cur: st, old: st, where: fn.String() + " ghostvar"}
 		st.ghost[gv.Name] = Sc{e0.term(gv.Init), gv.Sort}
@@ -113,6 +126,10 @@ func VerifyFunction(p *Program, spec *Spec, fn *ssa.Function, con *Contract) (re
 			st.assume(env.term(w.Sx))
 		}
 		for _, e := range con.Ensures {
+			if e.Trusted {
+				s.Assumed["trusted clause "+shortName(fn.String())+"["+e.Label+"] (used by callers, not proved; see bounded conformance)"] = true
+				continue
+			}
 			goal := env.term(e.Sx)
 			hyps := append([]string(nil), st.pc...)
 			if kw := KnownWhen[shortName(fn.String())]["post."+e.Label]; kw != nil {
